@@ -88,7 +88,7 @@ func VerifC04_Functions2() {
 	verifCallTotal(name, []types.XValue{a, b})
 }
 
-var verifKinds3 = []int{0, 3, 6, 14, 16}
+var verifKinds3 = []int{0, 2, 3, 5, 6, 14, 16}
 var verifKinds3Thorough = []int{0, 3, 6, 8, 14, 16, 19}
 
 // VerifC04_Functions3: every registered function with three (quick) / three
